@@ -135,6 +135,7 @@ func spec_csCnt(s *ImmuStore) bool {
 // allowance never exceeds the precommitted id" as a two-state fact (property-derived; the original code did not clamp the
 // allowance when it lowered inmemPrecommittedTxID: genuine defect, repaired by a fix: commit; the deferred closure clamps it).
 //@ func (*ImmuStore).DiscardPrecommittedTxsSince
+//@   order recede_after_lowering: store s.inmemPrecommittedTxID before s.durablePrecommitWHub.RecedeTo
 //@   divmod abstract
 //@   requires wf: spec_csWF(s)
 //@   requires logger: s.logger != nil
